@@ -119,10 +119,11 @@ func main() {
 		return
 	}
 	if r.Mode == "battery" { // debugging aid: print the battery package and check it
-		j := batteryJobs()
-		fmt.Println(j.src)
-		if _, err := parseAndCheck("bat.wuffs", []byte(j.src)); err != nil {
-			fmt.Println("REJECTED:", err)
+		for _, j := range batteryJobs() {
+			fmt.Println(j.src)
+			if _, err := parseAndCheck(j.name+".wuffs", []byte(j.src)); err != nil {
+				fmt.Println("REJECTED:", err)
+			}
 		}
 		return
 	}
@@ -139,21 +140,20 @@ func main() {
 		fmt.Println(fe.serialize())
 		return
 	}
-	tPhase := time.Now()
-	phase := func(name string) {
-		r.Extra("seconds_"+name, float64(int(time.Since(tPhase).Seconds()*10))/10)
-		tPhase = time.Now()
-	}
+	t0 := time.Now()
 	tc, err := setupToolchain(r.Repo)
-	phase("toolchain")
+	r.Extra("seconds_toolchain", secs(t0))
 	if err != nil {
 		r.Note("toolchain: " + err.Error())
 		r.Fail("toolchain", "cannot build wuffs-c / base from the working tree: "+firstLines(err.Error(), 12), "")
 		r.Finish("toolchain failure")
 		return
 	}
+	r.Extra("base_objects_from_cache", tc.cacheHits)
 	if r.Mode == "exprtree" { // debugging aid: only the nested-expression probes
-		exprTreeCheck(r, tc)
+		c := newRec(r)
+		exprTreeCheck(c, tc)
+		c.flush(r)
 		tc.cleanup()
 		r.Finish("nested-expression probes only")
 		return
@@ -164,52 +164,101 @@ func main() {
 		fmt.Fprintln(os.Stderr, "keeping", tc.dir)
 	}
 
-	shapeCheck(r, tc)
-	phase("shape")
-	exprTreeCheck(r, tc)
-	phase("exprtree")
-	iterateCheck(r, tc)
-	iterateJumpCheck(r, tc)
-	phase("iterate")
-	runExec(r, tc)
-	phase("exec")
+	// the phases run concurrently, each into its own recording (rec.go)
+	type phase struct {
+		name string
+		f    func(*rec, *toolchain)
+		c    *rec
+		secs float64
+	}
+	phases := []*phase{
+		{name: "shape", f: shapeCheck},
+		{name: "exprtree", f: exprTreeCheck},
+		{name: "iterate", f: func(c *rec, tc *toolchain) { iterateCheck(c, tc); iterateJumpCheck(c, tc) }},
+		{name: "exec", f: runExec},
+		{name: "io", f: runIO},
+	}
+	only := os.Getenv("C04_ONLY") // debugging aid: comma-separated phase names
+	var wg sync.WaitGroup
+	for _, ph := range phases {
+		ph.c = newRec(r) // forks r.Rand: in this fixed order
+		if only != "" && !strings.Contains(","+only+",", ","+ph.name+",") {
+			continue
+		}
+		wg.Add(1)
+		go func(ph *phase) {
+			defer wg.Done()
+			t := time.Now()
+			ph.f(ph.c, tc)
+			ph.secs = secs(t)
+		}(ph)
+	}
+	wg.Wait()
+	for _, ph := range phases {
+		ph.c.flush(r)
+		r.Extra("seconds_"+ph.name, ph.secs)
+	}
+	r.Extra("seconds_harness", secs(t0))
 
 	r.Finish("programs: one struct + 2-5 methods over u8/u16/u32/u64 (refined or not), bool, arrays, consts; all " +
 		"operators incl. ~mod/~sat, as, op-assign, if/else-if, (labelled) while/break/continue, calls; range-directed so " +
-		"the checker accepts; histories of 2-7 calls with boundary arguments. non-trivial = accepted program whose " +
+		"the checker accepts; histories of 2-7 calls with boundary arguments; I/O coroutines (every suspending built-in) " +
+		"driven over every split of a short input. non-trivial = accepted program whose " +
 		"history ran; distinct by (source, history)")
 }
 
-func runExec(r *hlib.Run, tc *toolchain) {
-	nPkgs, perPkg, workers := 5, 14, 5
+func secs(t time.Time) float64 { return float64(int(time.Since(t).Seconds()*10)) / 10 }
+
+func runExec(r *rec, tc *toolchain) {
+	nPkgs, perPkg, workers := 4, 10, 8
 	if r.Thorough {
 		nPkgs, perPkg, workers = 150, 12, 12
 	}
 	t0 := time.Now()
-	// phase 1: generate (sequential: deterministic for the seed)
+	// phase 1: generate (one forked generator per program slot, so the slots can
+	// be filled concurrently and the result is still a function of the seed)
 	jobs := make([]*pkgJob, nPkgs)
+	type slotT struct {
+		rnd      *hlib.Rand
+		p        *program
+		h        []call
+		rejected []string
+	}
+	slots := make([]slotT, nPkgs*perPkg)
+	for i := range slots {
+		slots[i].rnd = r.Rand.Fork()
+	}
+	parallelDo(len(slots), 12, func(i int) {
+		sl := &slots[i]
+		for try := 0; try < 4; try++ {
+			q := genProgram(sl.rnd.Fork(), fmt.Sprintf("s%d", i%perPkg))
+			if _, err := parseAndCheck("p.wuffs", []byte(q.src)); err != nil {
+				if os.Getenv("C04_DEBUG") != "" {
+					fmt.Fprintf(os.Stderr, "REJECTED: %v\n%s\n", err, q.src)
+				}
+				sl.rejected = append(sl.rejected, "rejected: "+firstLines(err.Error(), 1))
+				continue
+			}
+			sl.p = q
+			break
+		}
+		if sl.p != nil {
+			sl.h = genHistory(sl.rnd.Fork(), sl.p)
+		}
+	})
 	for i := range jobs {
 		j := &pkgJob{name: fmt.Sprintf("p%d", i)}
 		for k := 0; k < perPkg; k++ {
-			var p *program
-			for try := 0; try < 4; try++ {
-				q := genProgram(r.Rand.Fork(), fmt.Sprintf("s%d", k))
-				if _, err := parseAndCheck(j.name+".wuffs", []byte(q.src)); err != nil {
-					r.Count("discard:checker-rejected")
-					if os.Getenv("C04_DEBUG") != "" {
-						fmt.Fprintf(os.Stderr, "REJECTED: %v\n%s\n", err, q.src)
-					}
-					r.Sample("rejected: " + firstLines(err.Error(), 1))
-					continue
-				}
-				p = q
-				break
+			sl := &slots[i*perPkg+k]
+			for _, rj := range sl.rejected {
+				r.Count("discard:checker-rejected")
+				r.Sample(rj)
 			}
-			if p == nil {
+			if sl.p == nil {
 				continue
 			}
-			j.progs = append(j.progs, p)
-			j.hists = append(j.hists, genHistory(r.Rand.Fork(), p))
+			j.progs = append(j.progs, sl.p)
+			j.hists = append(j.hists, sl.h)
 		}
 		var b strings.Builder
 		for _, p := range j.progs {
@@ -218,7 +267,7 @@ func runExec(r *hlib.Run, tc *toolchain) {
 		j.src = b.String()
 		jobs[i] = j
 	}
-	jobs = append([]*pkgJob{batteryJobs()}, jobs...)
+	jobs = append(batteryJobs(), jobs...)
 	t1 := time.Now()
 	// phase 2: translate, compile, run (parallel)
 	var wg sync.WaitGroup
@@ -421,7 +470,7 @@ type pendingCase struct {
 
 // runReference pipes the cases through the compiled Lean driver (built by
 // ./check before the harness runs). Returns nil when it is not available.
-func runReference(r *hlib.Run, pend []*pendingCase) [][]string {
+func runReference(r *rec, pend []*pendingCase) [][]string {
 	bin := os.Getenv("VERIF_C04_MODEL")
 	if bin == "" {
 		bin = "lean/.lake/build/bin/wv_c04"
